@@ -21,8 +21,8 @@
 (* ("remove", what Python 3.4 does: the next import runs the body again).                     *)
 EXTENDS PyImportCfg, Json
 
-VARIABLES prog, policy, starerr, fstar, modattr, store, stack, exc, ns, nsall, cnt, log, cls, obs, runs, fails, made, binds, steps
-vars == <<prog, policy, starerr, fstar, modattr, store, stack, exc, ns, nsall, cnt, log, cls, obs, runs, fails, made, binds, steps>>
+VARIABLES avail, prog, policy, starerr, fstar, modattr, store, stack, exc, ns, nsall, cnt, log, cls, obs, runs, fails, made, binds, steps
+vars == <<avail, prog, policy, starerr, fstar, modattr, store, stack, exc, ns, nsall, cnt, log, cls, obs, runs, fails, made, binds, steps>>
 
 Op(o) == [form |-> o, t |-> "-"]
 ValuesOf(m) == [v |-> m \o ".v", _h |-> m \o "._h", pub |-> m \o ".pub"]
@@ -48,6 +48,7 @@ Frame(m) == [m |-> m, pc |-> 1, wait |-> FALSE, tc |-> "-"]
 
 InitWith(f, S) ==
   /\ \E c \in S : prog = ProgOf(f, c) /\ policy \in Policies(c) /\ starerr \in StarErrs(c)
+  /\ avail = { m \in Mods : prog.kinds[m] # "late" }
   /\ store = {} /\ stack = << Frame(Main) >> /\ exc = "none" /\ fstar = {} /\ modattr = [m \in All |-> {}]
   /\ ns = [m \in All |-> EmptyNs] /\ nsall = [m \in All |-> "no"] /\ cnt = [m \in Mods |-> 0]
   /\ log = <<>> /\ cls = <<>> /\ obs = <<>>
@@ -81,23 +82,25 @@ ImportErrorEntry == << <<Top.m, Idx, "ImportError">> >>
 
 AtImport == Active /\ exc = "none" /\ Cur.form \in ImportForms
 
-(* import of a module that exists nowhere: ImportError, nothing registered *)
+(* import of a module that exists nowhere - or not YET anywhere the context looks: a "late" module's file lies *)
+(* in a directory that is not on sys.path until the main program appends it (AddPath).  ImportError, nothing  *)
+(* registered, nothing remembered: the same statement succeeds once the module can be found.                  *)
 MissingModule ==
-  /\ AtImport /\ ~Top.wait /\ Cur.t = Missing
+  /\ AtImport /\ ~Top.wait /\ (Cur.t = Missing \/ (Cur.t \in Mods \ avail /\ Cur.t \notin store))
   /\ store' = store
-  /\ Advance(ImportErrorEntry, << ClsOf(Cur, "missing") >>)
-  /\ Tick /\ UNCHANGED <<prog, policy, starerr, modattr, fstar, exc, ns, nsall, cnt, runs, fails, made, binds>>
+  /\ Advance(ImportErrorEntry, << ClsOf(Cur, IF Cur.t = Missing THEN "missing" ELSE "unavailable") >>)
+  /\ Tick /\ UNCHANGED <<avail, prog, policy, starerr, modattr, fstar, exc, ns, nsall, cnt, runs, fails, made, binds>>
 
 (* first import in this context: the module is registered BEFORE its body runs *)
 RegisterBeforeRun ==
-  /\ AtImport /\ ~Top.wait /\ Cur.t \in Mods /\ Cur.t \notin store
+  /\ AtImport /\ ~Top.wait /\ Cur.t \in avail /\ Cur.t \notin store
   /\ LET t == Cur.t IN
      /\ store' = store \cup {t}
      /\ ns' = [ns EXCEPT ![t] = EmptyNs] /\ nsall' = [nsall EXCEPT ![t] = "no"] /\ cnt' = [cnt EXCEPT ![t] = 0]
      /\ made' = [made EXCEPT ![t] = @ + 1] /\ binds' = [binds EXCEPT ![t] = <<>>]
      /\ stack' = Append(SetTop([Top EXCEPT !.wait = TRUE, !.tc = "first"]), Frame(t))
      /\ fstar' = fstar \ {t} /\ modattr' = [modattr EXCEPT ![t] = {}]
-  /\ Tick /\ UNCHANGED <<prog, policy, starerr, exc, log, cls, obs, runs, fails>>
+  /\ Tick /\ UNCHANGED <<avail, prog, policy, starerr, exc, log, cls, obs, runs, fails>>
 
 (* from t import *  binds exactly __all__ if t has one, else the names not starting with an underscore *)
 (* (an empty __all__ binds nothing; a listed name the module lacks makes the statement fail after the names before it) *)
@@ -140,7 +143,14 @@ BindNames ==
           [] Cur.form = "frommod" /\ Cur.u \in modattr[Cur.t] -> @ \cup {Cur.u}
           [] Cur.form = "star" /\ nsall[Cur.t] = "no" -> @ \cup modattr[Cur.t]
           [] OTHER -> @]
-  /\ Tick /\ UNCHANGED <<prog, policy, starerr, exc, nsall, runs, fails, made>>
+  /\ Tick /\ UNCHANGED <<avail, prog, policy, starerr, exc, nsall, runs, fails, made>>
+
+(* sys.path.append(<the directory of the late modules>): from now on they can be found *)
+AddPath ==
+  /\ Active /\ exc = "none" /\ Cur.form = "addpath"
+  /\ avail' = Mods /\ store' = store
+  /\ Advance(<< <<Top.m, Idx, "addpath">> >>, << <<"stmt", "addpath", "-">> >>)
+  /\ Tick /\ UNCHANGED <<prog, policy, starerr, modattr, fstar, exc, ns, nsall, cnt, runs, fails, made, binds>>
 
 (* the other steps of a module body *)
 RunBodyStep ==
@@ -154,13 +164,13 @@ RunBodyStep ==
                               /\ nsall' = [nsall EXCEPT ![m] = Cur.allv]
                               /\ stack' = nxt /\ UNCHANGED <<exc, log, cls, runs>>
        [] Cur.form = "raise" -> exc' = "ValueError" /\ UNCHANGED <<stack, ns, nsall, log, cls, runs>>
-  /\ Tick /\ UNCHANGED <<prog, policy, starerr, modattr, fstar, store, cnt, obs, fails, made, binds>>
+  /\ Tick /\ UNCHANGED <<avail, prog, policy, starerr, modattr, fstar, store, cnt, obs, fails, made, binds>>
 
 (* a body ran to its end: the import that started it can bind *)
 FinishImport ==
   /\ stack # <<>> /\ exc = "none" /\ Top.pc > Len(Body(Top.m))
   /\ stack' = Rest
-  /\ Tick /\ UNCHANGED <<prog, policy, starerr, modattr, fstar, store, exc, ns, nsall, cnt, log, cls, obs, runs, fails, made, binds>>
+  /\ Tick /\ UNCHANGED <<avail, prog, policy, starerr, modattr, fstar, store, exc, ns, nsall, cnt, log, cls, obs, runs, fails, made, binds>>
 
 (* an exception leaves a module body: the import fails, the importer's statement raises it *)
 FailBody ==
@@ -168,19 +178,21 @@ FailBody ==
   /\ stack' = Rest
   /\ store' = IF policy = "remove" THEN store \ {Top.m} ELSE store
   /\ fails' = [fails EXCEPT ![Top.m] = @ + 1]
-  /\ Tick /\ UNCHANGED <<prog, policy, starerr, modattr, fstar, exc, ns, nsall, cnt, log, cls, obs, runs, made, binds>>
+  /\ Tick /\ UNCHANGED <<avail, prog, policy, starerr, modattr, fstar, exc, ns, nsall, cnt, log, cls, obs, runs, made, binds>>
 
 (* ... and the main program catches it; the context stays usable *)
 CatchInMain ==
   /\ stack # <<>> /\ exc # "none" /\ Top.m = Main
   /\ store' = store /\ exc' = "none"
   /\ Advance(<< <<Main, Idx, exc>> >>, << <<"raised", Cur.form, Top.tc>> >>)
-  /\ Tick /\ UNCHANGED <<prog, policy, starerr, modattr, fstar, ns, nsall, cnt, runs, fails, made, binds>>
+  /\ Tick /\ UNCHANGED <<avail, prog, policy, starerr, modattr, fstar, ns, nsall, cnt, runs, fails, made, binds>>
 
-Next == MissingModule \/ RegisterBeforeRun \/ BindNames \/ RunBodyStep \/ FinishImport \/ FailBody \/ CatchInMain
+Next == MissingModule \/ AddPath \/ RegisterBeforeRun \/ BindNames \/ RunBodyStep \/ FinishImport \/ FailBody \/ CatchInMain
 Final == stack = <<>>
 
 (* ---------------------------------- what C19 demands of the model ---------------------------------- *)
+(* nothing is registered that could never be found *)
+OnlyAvailable == store \subseteq avail
 (* a body runs once per successful import: a second run only ever follows a failed one *)
 RunOnce == \A m \in Mods : runs[m] <= 1 + fails[m] /\ (policy = "keep" => runs[m] <= 1)
 (* a module is never loading twice (cycles find the registered partial module instead of recursing) *)
